@@ -294,3 +294,57 @@ Proof.
   - split; [intros H; inversion H; exists s; split; reflexivity | intros [s' [H ->]]; inversion H; reflexivity].
   - split; [discriminate | intros [s' [H _]]; discriminate].
 Qed.
+
+(* ---- which server lists are accepted: every entry an IPv6 address, no address (:: included) twice *)
+
+Definition raw_addrs (l : list raw_server) : list N :=
+  flat_map (fun r => match r with RS6 a => [a] | _ => [] end) l.
+
+Lemma parse_servers_accepts l : forall auto set,
+  is_ok (parse_servers auto set l) = true <->
+  Forall raw_v6 l /\ NoDup (raw_addrs l)
+  /\ (forall x, In x (raw_addrs l) -> x <> 0 -> ~ In x set)
+  /\ (auto = true -> ~ In 0 (raw_addrs l)).
+Proof.
+  induction l as [|r tl IH]; intros auto set; cbn [parse_servers raw_addrs flat_map].
+  - cbn [is_ok]. split; [intros _|reflexivity]. split; [constructor|]. split; [constructor|].
+    split; [intros x [] | intros _ []].
+  - destruct r as [| |a]; cbn [is_ok app].
+    + split; [discriminate | intros [H _]; inversion H; contradiction].
+    + split; [discriminate | intros [H _]; inversion H; contradiction].
+    + fold (raw_addrs tl). unfold is_unspecified. destruct (N.eqb_spec a 0) as [Ha|Ha].
+      * subst a. destruct auto; cbn [is_ok].
+        -- split; [discriminate|]. intros [_ [_ [_ H]]]. exfalso. apply (H eq_refl). left; reflexivity.
+        -- rewrite IH. split.
+           ++ intros [Hall [Hnd [Hset Hauto]]]. split; [constructor; [exact I | exact Hall]|].
+              split; [constructor; [apply Hauto; reflexivity | exact Hnd]|].
+              split; [|discriminate]. intros x [Hx|Hx] Hx0; [congruence | apply Hset; assumption].
+           ++ intros [Hall [Hnd [Hset _]]]. inversion Hall; subst. inversion Hnd; subst.
+              split; [assumption|]. split; [assumption|]. split; [|intros _; assumption].
+              intros x Hx. apply Hset. right; exact Hx.
+      * destruct (memN a set) eqn:Em; cbn [is_ok].
+        -- apply memN_In in Em. split; [discriminate|]. intros [_ [_ [H _]]]. exfalso.
+           apply (H a); [left; reflexivity | exact Ha | exact Em].
+        -- assert (Hn : ~ In a set) by (intros Hi; apply memN_In in Hi; congruence).
+           rewrite IH. split.
+           ++ intros [Hall [Hnd [Hset Hauto]]]. split; [constructor; [exact I | exact Hall]|].
+              split; [constructor; [|exact Hnd]|].
+              { intros Hin. apply (Hset a Hin Ha). left; reflexivity. }
+              split.
+              { intros x [Hx|Hx] Hx0; [subst x; exact Hn|]. intros Hs. apply (Hset x Hx Hx0). right; exact Hs. }
+              { intros Hau [H0|H0]; [congruence | exact (Hauto Hau H0)]. }
+           ++ intros [Hall [Hnd [Hset Hauto]]]. inversion Hall; subst. inversion Hnd; subst.
+              split; [assumption|]. split; [assumption|]. split.
+              { intros x Hx Hx0 [Hs|Hs]; [subst x; contradiction | apply (Hset x); [right; exact Hx | exact Hx0 | exact Hs]]. }
+              { intros Hau H0. apply (Hauto Hau). right; exact H0. }
+Qed.
+
+Lemma parse_rdnss_accepts raw :
+  is_ok (parse_rdnss raw) = true <-> Forall raw_v6 raw /\ NoDup (raw_addrs raw).
+Proof.
+  assert (E : is_ok (parse_rdnss raw) = is_ok (parse_servers false [] raw)).
+  { unfold parse_rdnss. destruct raw as [|r tl]; [reflexivity|].
+    destruct (parse_servers false [] (r :: tl)) as [[a s]|e]; reflexivity. }
+  rewrite E, parse_servers_accepts. split; [tauto|]. intros [H1 H2].
+  split; [exact H1|]. split; [exact H2|]. split; [intros x _ _ []|discriminate].
+Qed.
